@@ -9,6 +9,13 @@ def floorRat (x : Rat) : Nat := x.floor.toNat
     (all points of the line coincide) -/
 def zeroChord (cds : List Rat) : Bool := sumL cds == 0
 
+/-- the data points all have the same number `≥ 2` of coordinates: otherwise `point_distance` raises `ValueError`
+    (ragged data) or the control point setter raises "should be at least 2-dimensional" (= `Geomdl.RectData`) -/
+def rectData (P : List (List Rat)) : Bool :=
+  match P with
+  | [] => true
+  | p0 :: _ => decide (2 ≤ p0.length) && P.all (fun pt => pt.length == p0.length)
+
 def handleFitting : List String → Option String
   | ["fit.params", cds] => do
       let cds ← parseList cds
@@ -16,7 +23,7 @@ def handleFitting : List String → Option String
       return showList (computeParams cds)
   | ["fit.icurve", p, ps, cds, invp] => do
       let p ← p.toNat?; let P ← parsePts ps; let cds ← parseList cds; let invp ← parseRat invp
-      if p = 0 || P.length < p + 1 || cds.length + 1 != P.length || zeroChord cds then return "ERR"
+      if p = 0 || P.length < p + 1 || cds.length + 1 != P.length || zeroChord cds || !rectData P then return "ERR"
       match interpolateCurve p P cds invp with
       | some (kv, cp) => return s!"{showList kv} {showPts cp}"
       | none => return "ERR"
@@ -24,14 +31,14 @@ def handleFitting : List String → Option String
       let pu ← pu.toNat?; let pv ← pv.toNat?; let su ← su.toNat?; let sv ← sv.toNat?
       let P ← parsePts ps; let cu ← parsePts cu; let cv ← parsePts cv; let iu ← parseRat iu; let iv ← parseRat iv
       if pu = 0 || pv = 0 || su < pu + 1 || sv < pv + 1 || P.length != su * sv then return "ERR"
-      if cu.any zeroChord || cv.any zeroChord then return "ERR"
+      if cu.any zeroChord || cv.any zeroChord || !rectData P then return "ERR"
       match interpolateSurface pu pv su sv P cu cv iu iv with
       | some (ku, kv, cp) => return s!"{showList ku} {showList kv} {showPts cp}"
       | none => return "ERR"
   | ["fit.acurve", p, ps, cds, nc] => do
       let p ← p.toNat?; let P ← parsePts ps; let cds ← parseList cds; let nc ← nc.toNat?
       -- with 2 control points `N` has no column and `matrix_multiply` raises IndexError (recorded finding F-11a)
-      if p = 0 || nc < p + 1 || nc < 3 || P.length < nc || cds.length + 1 != P.length || zeroChord cds then return "ERR"
+      if p = 0 || nc < p + 1 || nc < 3 || P.length < nc || cds.length + 1 != P.length || zeroChord cds || !rectData P then return "ERR"
       match approximateCurve p P cds nc floorRat with
       | some (kv, cp) => return s!"{showList kv} {showPts cp}"
       | none => return "ERR"
@@ -40,7 +47,7 @@ def handleFitting : List String → Option String
       let P ← parsePts ps; let cu ← parsePts cu; let cv ← parsePts cv; let ncu ← ncu.toNat?; let ncv ← ncv.toNat?
       -- with 2 control points in a direction `N` has no column and `matrix_multiply` raises IndexError
       if pu = 0 || pv = 0 || ncu < pu + 1 || ncv < pv + 1 || ncu < 3 || ncv < 3 || su < ncu || sv < ncv || P.length != su * sv then return "ERR"
-      if cu.any zeroChord || cv.any zeroChord then return "ERR"
+      if cu.any zeroChord || cv.any zeroChord || !rectData P then return "ERR"
       match approximateSurface pu pv su sv P cu cv ncu ncv floorRat with
       | some (ku, kv, cp) => return s!"{showList ku} {showList kv} {showPts cp}"
       | none => return "ERR"
